@@ -23,10 +23,11 @@ prop('C13', bounded=['datatypes'], explanation='contracts on the format-selectio
 prop('C14', bounded=['names'], explanation='contracts on name resolution (find_child_reference interface, _find_name, child_at_index)')
 prop('C15', bounded=['robust'], explanation='raises clauses: only declared exception classes escape the header functions')
 
-prop('C01', ground=['tables:twf_segments', 'tables:twf_datatypes'], bounded=['roundtrip'],
+prop('C01', ground=['tables:twf_segments', 'tables:twf_datatypes', 'astpass:c17_forwarding'], bounded=['roundtrip'],
      explanation='table preconditions of the round-trip lemma instantiated at every row (ground, exhaustive); decoder / '
                  'encoder contracts; end-to-end round trips through the real code as a bounded stand-in')
-prop('C02', ground=['tables:twf_segments', 'tables:twf_datatypes', 'tables:constructible', 'tables:positions'],
+prop('C02', ground=['tables:twf_segments', 'tables:twf_datatypes', 'tables:constructible', 'tables:positions', 'tables:open_ended',
+                    'astpass:c17_forwarding'],
      bounded=[],
      explanation='the position <-> name map is the table: every row checked (ground, exhaustive), every segment and '
                  'complex datatype instantiated, the position lemma executed on every well-formed row')
